@@ -229,6 +229,126 @@ theorem f64_rounds_nonneg : ∀ q, 0 ≤ q → 0 ≤ Arith.f64.rnd q := by
 theorem weighF64_nonneg (ts : List Target) : ∀ t ∈ weighA Arith.f64 ts, 0 ≤ t.weight :=
   weighA_nonneg Arith.f64 f64_rounds_nonneg ts
 
+/-! ## slots and ring in every arithmetic: never starved, never picked — also in float64 -/
+
+theorem slotCountA_exact (w : Rat) : slotCountA Arith.exact w = slotCount w := rfl
+
+/-- the driver's `slotCountF64` is the float64 instance -/
+theorem slotCountF64_eq (w : Rat) (hw : 0 ≤ w) : slotCountF64 w = slotCountA Arith.f64 w := by
+  unfold slotCountF64 slotCountA
+  have : Arith.f64.rnd ((maxSlots : Rat) * w) = roundF64 ((maxSlots : Rat) * w) := by
+    show roundF64S _ = _
+    unfold roundF64S
+    rw [if_neg (not_lt.mpr (mul_nonneg (by simp [maxSlots]) hw))]
+  rw [this]
+
+theorem slotCountA_nonneg (A : Arith) (hA : ∀ q, 0 ≤ q → 0 ≤ A.rnd q) (w : Rat) (hw : 0 ≤ w) :
+    0 ≤ slotCountA A w := by
+  unfold slotCountA
+  have hr : 0 ≤ A.rnd ((maxSlots : Rat) * w) := hA _ (mul_nonneg (by simp [maxSlots]) hw)
+  have ht : 0 ≤ truncZ (A.rnd ((maxSlots : Rat) * w)) := by
+    rw [truncZ_of_nonneg _ hr]; exact floor_nonneg_of_nonneg _ hr
+  simp only
+  split
+  · decide
+  · exact ht
+
+/-- "we guarantee that every target with a weight > 0 gets at least one slot" — whatever the rounding -/
+theorem slotCountA_pos (A : Arith) (hA : ∀ q, 0 ≤ q → 0 ≤ A.rnd q) (w : Rat) (hw : 0 < w) :
+    1 ≤ slotCountA A w := by
+  unfold slotCountA
+  have hr : 0 ≤ A.rnd ((maxSlots : Rat) * w) := hA _ (mul_nonneg (by simp [maxSlots]) (le_of_lt hw))
+  have ht : 0 ≤ truncZ (A.rnd ((maxSlots : Rat) * w)) := by
+    rw [truncZ_of_nonneg _ hr]; exact floor_nonneg_of_nonneg _ hr
+  simp only
+  split
+  · decide
+  · rename_i h
+    have : truncZ (A.rnd ((maxSlots : Rat) * w)) ≠ 0 := fun h0 => h ⟨h0, hw⟩
+    omega
+
+theorem slotCountA_zero (A : Arith) (h0 : A.rnd 0 = 0) : slotCountA A 0 = 0 := by
+  unfold slotCountA
+  simp only [mul_zero, h0]
+  have : truncZ 0 = 0 := by
+    rw [truncZ_of_nonneg _ (le_refl _)]
+    have := Rat.floor_intCast 0
+    simpa using this
+  rw [this]
+  simp
+
+/-- **The ring of the code as coded, in every arithmetic with `rnd 0 = 0` that rounds non-negative numbers to
+non-negative numbers — float64 in particular — and for every tie order of the sort:** the fill neither panics
+nor loops, no slot is nil, target `i` occupies exactly `slotCountA A wᵢ` slots (`wᵢ` the weight computed in
+`A`; exactly one slot each without fixed weights), a target with positive weight is on the ring and a target
+with weight zero is not. Sentences 3 and 4 of the property therefore do not depend on the ℚ idealisation. -/
+theorem ring_as_coded (A : Arith) (hA : ∀ q, 0 ≤ q → 0 ≤ A.rnd q) (h0 : A.rnd 0 = 0) (ts : List Target)
+    (pl : List (Int × Nat))
+    (hperm : pl.Perm (entries ((weighA A ts).map (fun t => slotCountA A t.weight)))) :
+    ∃ ring, ringAsCoded A ts pl = .ok ring ∧ (∀ s ∈ ring, s ≠ none) ∧
+      ∀ i t, (weighA A ts)[i]? = some t →
+        ring.count (some i) = (if nFixed ts = 0 then 1 else (slotCountA A t.weight).toNat) ∧
+        (0 < t.weight → some i ∈ ring) ∧ (t.weight = 0 → nFixed ts ≠ 0 → some i ∉ ring) := by
+  have hlenA : (weighA A ts).length = ts.length := by
+    have := congrArg List.length (weighA_keeps_fields A ts)
+    simpa using this
+  unfold ringAsCoded
+  by_cases hn : nFixed ts = 0
+  · simp only [hn, if_true]
+    refine ⟨_, rfl, ?_, ?_⟩
+    · intro s hs; obtain ⟨_, _, rfl⟩ := List.mem_map.mp hs; simp
+    · intro i t hi
+      have hil : i < ts.length := by
+        by_cases hlt : i < ts.length
+        · exact hlt
+        · rw [List.getElem?_eq_none (by rw [hlenA]; omega)] at hi; cases hi
+      have hc : ((List.range ts.length).map some).count (some i) = 1 := by
+        rw [List.count_eq_countP, List.countP_map]
+        have : (List.range ts.length).countP ((fun x => x == some i) ∘ some) = (List.range ts.length).count i := by
+          rw [List.count_eq_countP]; congr 1
+        rw [this]
+        exact List.count_eq_one_of_mem List.nodup_range (List.mem_range.mpr hil)
+      refine ⟨hc, fun _ => List.count_pos_iff.mp (by omega), fun _ h => absurd rfl h⟩
+  · simp only [hn, if_false]
+    have hpos : ∀ n ∈ (weighA A ts).map (fun t => slotCountA A t.weight), 0 ≤ n := by
+      intro n hnm
+      obtain ⟨t, ht, rfl⟩ := List.mem_map.mp hnm
+      exact slotCountA_nonneg A hA _ (weighA_nonneg A hA ts t ht)
+    obtain ⟨ring, h1, _, h3, h4⟩ := ring_counts _ hpos pl hperm
+    refine ⟨ring, h1, h3, fun i t hi => ?_⟩
+    have hil : i < (weighA A ts).length := by
+      by_cases hlt : i < (weighA A ts).length
+      · exact hlt
+      · rw [List.getElem?_eq_none (by omega)] at hi; cases hi
+    have hti : (weighA A ts)[i] = t := by
+      rw [List.getElem?_eq_getElem hil] at hi; exact Option.some.inj hi
+    have hc : ring.count (some i) = (slotCountA A t.weight).toNat := by
+      rw [h4 i (by simpa using hil)]
+      simp [hti]
+    refine ⟨hc, fun hp => List.count_pos_iff.mp ?_, fun hz _ hm => ?_⟩
+    · rw [hc]; have := slotCountA_pos A hA _ hp; omega
+    · have := List.count_pos_iff.mpr hm
+      rw [hc, hz, slotCountA_zero A h0] at this
+      exact absurd this (by decide)
+
+theorem f64_rounds_zero : Arith.f64.rnd 0 = 0 := by decide +kernel
+
+/-- float64: what the Go code does -/
+theorem ring_f64 (ts : List Target) (pl : List (Int × Nat))
+    (hperm : pl.Perm (entries ((weighA Arith.f64 ts).map (fun t => slotCountA Arith.f64 t.weight)))) :
+    ∃ ring, ringAsCoded Arith.f64 ts pl = .ok ring ∧ (∀ s ∈ ring, s ≠ none) ∧
+      ∀ i t, (weighA Arith.f64 ts)[i]? = some t →
+        ring.count (some i) = (if nFixed ts = 0 then 1 else (slotCountA Arith.f64 t.weight).toNat) ∧
+        (0 < t.weight → some i ∈ ring) ∧ (t.weight = 0 → nFixed ts ≠ 0 → some i ∉ ring) :=
+  ring_as_coded Arith.f64 f64_rounds_nonneg f64_rounds_zero ts pl hperm
+
+/-- exact arithmetic: `ringAsCoded` is `ringOf ∘ weigh` of the ℚ model -/
+theorem ringAsCoded_exact (ts : List Target) (pl : List (Int × Nat)) :
+    ringAsCoded Arith.exact ts pl = ringOf (weigh ts) pl := by
+  unfold ringAsCoded ringOf
+  rw [weigh_nFixed, weighA_exact, weigh_length]
+  rfl
+
 /-! ## the random picker under a uniform source -/
 
 theorem count_eq_countP_range (l : Ring) (a : Option Nat) :
@@ -367,6 +487,9 @@ example : spreadW Arith.f64 (pow2 (-1074)) 2 = 0 := by decide +kernel
 /-- float64 identity: 0.0001 / 10 and 0.00001 are the same double, their exact quotients differ -/
 example : spreadW Arith.f64 (roundF64 (1/10000)) 10 = roundF64 (1/100000) ∧
     spreadW Arith.exact (roundF64 (1/10000)) 10 ≠ roundF64 (1/100000) := by decide +kernel
+/-- 0.9 and 0.00001 in float64: the small target still gets its guaranteed slot -/
+example : (weighA Arith.f64 [tg (roundF64 (9/10)), tg (roundF64 (1/100000))]).map (fun t => slotCountA Arith.f64 t.weight)
+    = [9999, 1] := by decide +kernel
 example : f64_rounds_nonneg (1/3) (by decide +kernel) = f64_rounds_nonneg (1/3) (by decide +kernel) := rfl
 /-- ring 0 1 0 (two slots for target 0): two of the three RNG values select target 0 -/
 example : (List.range 3).countP (fun (k : Nat) => decide (rndPick [some 0, some 1, some 0] (fun _ => (k : Int)) = .ok (some 0))) = 2 := by
